@@ -347,27 +347,50 @@ class SpheregroupRenumber:
 # whole-function contract against brute-force connected components (spatial hash included): bounded numerical stand-in
 # ---------------------------------------------------------------------------
 from pyvc.numeric import NumericJob as _NumericJob
-from contracts.c04 import sky_points, true_sep
+from contracts.c04 import sky_points, true_sep, sep_matrix
 
 
 @register("C05")
 class SpheregroupBruteForce(_NumericJob):
     name = "spheregroup_vs_brute_force"
     target = "pydl.pydlutils.spheregroup:spheregroup, chunks.__init__, chunks.assign, chunks.getbounds, chunks.get, chunks.friendsoffriends, groups.__init__"
-    bound = ("5..70 points: clusters, chains of steps just below the linking length running across many chunks (also across the RA 0/360 seam and over a "
+    bound = ("5..420 points: mazes (chains along random edges of a 5..7 x 4..6 lattice of nodes 2.7..5 linking lengths apart, shuffled input), clusters, chains of steps just below the linking length running across many chunks (also across the RA 0/360 seam and over a "
              "pole), seam clusters, near-polar scatter, all sky, chunk-aligned lattices, optionally padded with an all-sky lattice; linking lengths 2 arcsec "
              ".. 10 deg; chunk sizes from the default to 30 x the linking length; each case also with the points permuted; separations within 1e-7 deg of "
              "the linking length are not generated")
     KINDS = ("same_group_exactly_when_linked_by_a_chain", "groups_numbered_by_first_member", "multiplicity_first_next_describe_the_same_partition",
              "independent_of_chunk_size_and_point_order")
-    NQ, NT = 150, 1500
+    NQ, NT = 400, 2500
 
     def _cases(self, rng, n):
         rep = 0
         while rep < n:
-            kind = rng.choice(["cluster", "seam", "pole", "allsky", "lattice", "chain", "chain", "seamchain", "polechain"])
+            kind = rng.choice(["cluster", "seam", "pole", "allsky", "lattice", "chain", "chain", "seamchain", "polechain", "maze", "maze", "maze"])
             npts = rng.randint(5, 70)
-            if kind == "allsky":
+            if kind == "maze":
+                # chains along a random subset of the edges of a lattice of nodes a few linking lengths apart: tree-like groups spanning many
+                # chunks, merged late and in many different orders by the chunk-by-chunk pass (input order shuffled)
+                link = rng.choice([1.0, 1.0, 0.25])
+                cell = link * rng.choice([2.7, 3.3, 4.1, 5.0])
+                nxn, nyn = rng.randint(5, 7), rng.randint(4, 6)
+                r0, d0 = rng.uniform(30, 300), rng.uniform(-30, 20)
+                pts, step = [], 0.8 * link
+                def chain_(a, b):
+                    m = max(1, int(np.ceil(np.hypot(b[0] - a[0], b[1] - a[1]) / step)))
+                    for t in range(m + 1):
+                        pts.append((a[0] + (b[0] - a[0]) * t / m + rng.uniform(-0.05, 0.05) * link, a[1] + (b[1] - a[1]) * t / m + rng.uniform(-0.05, 0.05) * link))
+                for i in range(nxn):
+                    for jn in range(nyn):
+                        if i + 1 < nxn and rng.random() < 0.45:
+                            chain_((i * cell, jn * cell), ((i + 1) * cell, jn * cell))
+                        if jn + 1 < nyn and rng.random() < 0.45:
+                            chain_((i * cell, jn * cell), (i * cell, (jn + 1) * cell))
+                if len(pts) < 5 or len(pts) > 420:
+                    continue
+                rng.shuffle(pts)
+                ra = np.array([(r0 + q[0] / np.cos(np.radians(d0 + q[1]))) % 360.0 for q in pts])
+                dec = np.array([d0 + q[1] for q in pts])
+            elif kind == "allsky":
                 link = rng.choice([2.0, 5.0, 10.0])
                 ra, dec = sky_points(rng, npts, kind)
             elif "chain" in kind:
@@ -405,12 +428,12 @@ class SpheregroupBruteForce(_NumericJob):
                 gra, gdec = np.meshgrid(np.arange(0.0, 360.0, 30.0), np.arange(-60.0, 61.0, 30.0))
                 ra, dec = np.concatenate([ra, gra.ravel()]), np.concatenate([dec, gdec.ravel()])
             npt = ra.size
-            sep = np.array([[true_sep(ra[i], dec[i], ra[k], dec[k]) if k > i else 0.0 for k in range(npt)] for i in range(npt)])
-            sep = sep + sep.T
+            sep = sep_matrix(ra, dec, ra, dec)
+            sep[np.arange(npt), np.arange(npt)] = 0.0
             off = ~np.eye(npt, dtype=bool)
             if (np.abs(sep[off] - link) < 1e-7).any():
                 continue
-            chunksize = rng.choice([None, None, link * rng.uniform(1.0, 30.0)])
+            chunksize = rng.choice([None, None, link * rng.uniform(1.0, 30.0)]) if kind != "maze" else rng.choice([4.0 * link, 4.0 * link, None])
             eff = max(4 * link, 0.1) if chunksize is None else max(chunksize, 4 * link)
             span_d = dec.max() - dec.min()
             dra = np.sort(ra)
